@@ -204,6 +204,74 @@ pub fn run_chain(p: &Program, events: &[(u8, usize)], reference: &[BddNode]) -> 
     (obs, out)
 }
 
+/// a long stream (more than 2^16 messages): polls at cut points around 65535 / 65536 and at both ends, single receiver
+/// and relay chain
+pub fn big_stream_case(pairs: usize) -> Vec<(String, String)> {
+    let mut out = vec![];
+    let (ps, pr) = unbounded::<BddNode>();
+    let mut b = Bdd::with_sender(ps);
+    for i in 0..pairs {
+        let x = b.variable(Var(i));
+        let y = b.variable(Var(i + 1));
+        b.and(x, y);
+        b.xor(x, y);
+    }
+    let msgs: Vec<BddNode> = pr.try_iter().collect();
+    let reference = b.nodes.clone();
+    if msgs[..] != reference[2..] {
+        out.push(("producer:stream".into(), format!("{} streamed messages are not the {} created nodes in creation order", msgs.len(), reference.len() - 2)));
+        return out;
+    }
+    let n = msgs.len();
+    let cuts: Vec<usize> = [0usize, 1, 65533, 65534, 65535, 65536, 65537, n - 1, n].into_iter().filter(|c| *c <= n).collect();
+    for &cut in &cuts {
+        for h in [cut, cut + 1, cut + 2, cut + 3, 65535, 65536, 65537, 65538, n + 1, n + 2, usize::MAX] {
+            let (gs, rr) = unbounded::<BddNode>();
+            let mut recv = Bdd::with_receiver(rr);
+            for m in &msgs[..cut] {
+                gs.send(*m).unwrap();
+            }
+            poll(&mut recv, h, cut, &reference, "receiver", &mut out);
+            // a second poll for the same handle after everything was delivered
+            for m in &msgs[cut..] {
+                gs.send(*m).unwrap();
+            }
+            poll(&mut recv, h, n, &reference, "receiver", &mut out);
+            drop(gs);
+            let _ = recv.recv(Term(usize::MAX));
+            if recv.nodes != reference {
+                out.push(("receiver:final-table".into(), format!("after draining a stream of {} messages (first poll at cut {}, handle {}) the tables differ", n, cut, h as i64)));
+            }
+            if out.len() > 20 {
+                return out;
+            }
+        }
+    }
+    // relay chain: relay polled at the cut, end polled afterwards
+    for &cut in &cuts {
+        let (s1, r1) = unbounded::<BddNode>();
+        let (s2, r2) = unbounded::<BddNode>();
+        let mut relay = Bdd::with_sender_receiver(s2, r1);
+        let mut last = Bdd::with_receiver(r2);
+        for m in &msgs[..cut] {
+            s1.send(*m).unwrap();
+        }
+        poll(&mut relay, cut + 1, cut, &reference, "relay", &mut out);
+        let fwd = relay.nodes.len() - 2;
+        poll(&mut last, cut, fwd, &reference, "last", &mut out);
+        for m in &msgs[cut..] {
+            s1.send(*m).unwrap();
+        }
+        drop(s1);
+        let _ = relay.recv(Term(usize::MAX));
+        let _ = last.recv(Term(usize::MAX));
+        if relay.nodes != reference || last.nodes != reference {
+            out.push(("chain:final-table".into(), format!("after draining a chain with a stream of {} messages (relay polled at cut {}) the tables differ", n, cut)));
+        }
+    }
+    out
+}
+
 fn handles(n_msgs: usize) -> Vec<usize> {
     (0..n_msgs + 4).chain([usize::MAX]).collect()
 }
@@ -431,6 +499,29 @@ pub fn run_c19(run: &Run) {
         run.add_counts(0, st.polls, st.schedules, 0);
         run.add_outcomes(st.outcomes);
     }
+    // long streams
+    let sizes: Vec<usize> = if quick { vec![17_000] } else { vec![17_000, 40_000] };
+    let res = run.par_family(
+        "long streams (more than 2^16 messages), polls around message 65536 and at both ends, receiver and relay chain",
+        sizes.len() as u64,
+        || 0u64,
+        |st, k| {
+            *st += 9 * 11 * 2 + 18;
+            run.heartbeat();
+            match guard(|| big_stream_case(sizes[k as usize])) {
+                Ok(found) => {
+                    for (kind, msg) in found {
+                        run.violation(&kind, format!("{} (stream of {} variable pairs)", msg, sizes[k as usize]), json!({"type": "big-stream", "pairs": sizes[k as usize]}));
+                    }
+                }
+                Err(m) => run.violation("stream:panic", m, json!({"type": "big-stream", "pairs": sizes[k as usize]})),
+            }
+        },
+        &|k| json!({"type": "big-stream", "pairs": sizes[k as usize]}),
+    );
+    for st in res {
+        run.add_counts(1, st, st, st);
+    }
     run.sample(json!({"type": "stream", "program": prog_json(&progs[0]), "polls": [[1, 3], [2, 18446744073709551615u64]], "threaded": false}));
     run.sample(json!({"type": "chain", "program": prog_json(&progs[0]), "events": [[0, 0], [1, 2], [0, 0], [2, 3], [0, 0]]}));
     run.extra("states_are", json!("producer programs"));
@@ -439,6 +530,9 @@ pub fn run_c19(run: &Run) {
 }
 
 pub fn replay(c: &Value) -> Vec<(String, String)> {
+    if c["type"] == "big-stream" {
+        return guard(|| big_stream_case(c["pairs"].as_u64().unwrap_or(17000) as usize)).unwrap_or_else(|m| vec![("stream:panic".into(), m)]);
+    }
     let ops: Vec<Op> = c["program"].as_array().map(|a| a.iter().filter_map(op_from_json).collect()).unwrap_or_default();
     let p = Program { ops };
     let mut b = Bdd::new();
